@@ -27,6 +27,8 @@ pub enum ROp {
     /// create an iterator and call `Iterator::nth(j)` once (what `skip` and `step_by` call):
     /// j items are passed over, the next one is returned
     IterNth(u8),
+    /// create an iterator and call `Iterator::last()`: everything is consumed, the last item returned
+    IterLast,
     Seek(u8),
     Count,
     /// read_nth_shape_as::<a user-defined ReadableShape>(i) whose `read_from` panics after it has
@@ -245,6 +247,16 @@ fn apply(r: &mut AnyReader, op: ROp, n: usize) -> Result<Obs, PanicInfo> {
                 Some(Err(e)) => Obs::Items(vec![Err(classify(&e))], false),
             }
         }
+        (AnyReader::Shp(r), ROp::IterLast) => match r.iter_shapes().last() {
+            None => Obs::Items(vec![], true),
+            Some(Ok(s)) => Obs::Items(vec![Ok((capture(&s), None))], true),
+            Some(Err(e)) => Obs::Items(vec![Err(classify(&e))], true),
+        },
+        (AnyReader::Full(r), ROp::IterLast) => match r.iter_shapes_and_records().last() {
+            None => Obs::Items(vec![], true),
+            Some(Ok((s, rec))) => Obs::Items(vec![Ok((capture(&s), row_idx(&rec)))], true),
+            Some(Err(e)) => Obs::Items(vec![Err(classify(&e))], true),
+        },
         (AnyReader::Shp(r), ROp::IterWrong) => {
             let mut it = r.iter_shapes_as::<shapefile::Multipatch>();
             match it.next() {
@@ -288,6 +300,7 @@ fn op_name(op: ROp) -> String {
         ROp::NthWrong(i) => format!("nth-as-other-type({})", i),
         ROp::IterWrong => "iter-as-other-type-1".into(),
         ROp::IterNth(j) => format!("iter-nth({})", j),
+        ROp::IterLast => "iter-last".into(),
         ROp::Seek(k) => format!("seek({})", k),
         ROp::Count => "count".into(),
         ROp::NthPanic(i) => format!("nth-as-panicking-user-type({})", i),
@@ -306,6 +319,7 @@ fn history_site(ops: &[ROp], upto: usize) -> String {
         ROp::NthWrong(_) => "nthwrong",
         ROp::IterWrong => "iterwrong",
         ROp::IterNth(_) => "iternth",
+        ROp::IterLast => "iterlast",
         ROp::Seek(_) => "seek",
         ROp::Count => "count",
         ROp::NthPanic(_) => "nthpanic",
@@ -446,8 +460,38 @@ pub fn run_history(scn: &HrScn, f: &ValidFile, dbf: &[u8], ctx: &mut Ctx) {
                     unsynced = false;
                 }
             }
-            (ROp::Iter(_), Obs::Items(..)) | (ROp::IterNth(_), Obs::Items(..)) if unsynced => {
+            (ROp::Iter(_), Obs::Items(..)) | (ROp::IterNth(_), Obs::Items(..)) | (ROp::IterLast, Obs::Items(..)) if unsynced => {
                 ctx.stats.reach("iteration-not-judged-after-failed-typed-iteration");
+            }
+            (ROp::IterLast, Obs::Items(items, _)) => {
+                // the last record if any was left, nothing otherwise; everything is consumed
+                let mut next: BTreeSet<usize> = BTreeSet::new();
+                for &p in cand.iter() {
+                    if p < n {
+                        let ok = matches!(items.first(), Some(Ok((g, row))) if diff_read(&f.expected[n - 1], g, n - 1, &never).is_none() && (!with_rows || *row == Some((n - 1) as i64)));
+                        if ok {
+                            next.insert(n);
+                            next.insert(0);
+                        }
+                    } else if items.is_empty() {
+                        next.insert(p);
+                    }
+                }
+                if next.is_empty() {
+                    let shown: Vec<String> = items
+                        .iter()
+                        .map(|it| match it {
+                            Ok((g, row)) => {
+                                let which = f.expected.iter().position(|e| diff_read(e, g, 0, &never).is_none());
+                                format!("record {:?}{}", which, row.map(|r| format!("/row {}", r)).unwrap_or_default())
+                            }
+                            Err(e) => format!("Err({:?})", e),
+                        })
+                        .collect();
+                    ctx.fail("C15", "iteration-sequence", site, format!("history {} ({:?}, {} records): call {} (last()) returned [{}]; allowed start positions were {:?}", hist, scn.kind, n, oi, shown.join(", "), cand));
+                    return;
+                }
+                cand = next;
             }
             (ROp::IterNth(j), Obs::Items(items, ended)) => {
                 // the item after j passed-over ones, or the end if fewer than j + 1 were left
@@ -568,6 +612,7 @@ pub fn alphabet(n: usize) -> Vec<ROp> {
     a.push(ROp::NthWrong(1));
     a.push(ROp::IterWrong);
     a.push(ROp::IterNth(1));
+    a.push(ROp::IterLast);
     for k in 0..=n {
         a.push(ROp::Seek(k as u8));
     }
@@ -599,7 +644,7 @@ const CONFIGS: [(RKind, bool, u8, usize); 18] = [
     (RKind::FullNoIndex, true, 0, 3),
     (RKind::FullNoIndex, false, 0, 3),
 ];
-const MAX_ALPHABET: usize = 20;
+const MAX_ALPHABET: usize = 21;
 
 /// Sweep unit: (configuration, first letter). All histories up to `max_len` starting with that
 /// letter (for the 4-record configurations one call less, their alphabet has 19 letters).
